@@ -20,7 +20,7 @@ for f in sorted(glob.glob(os.path.join(root, "seeded", "*", "meta.json"))):
     m = json.load(open(f))
     sid = m["id"]
     k = int(sid.split("-")[1])
-    rnd = 1 if k <= 3 else (2 if k <= 6 else (3 if k <= 9 else 4))
+    rnd = (k + 2) // 3 if k <= 12 else (5 if k <= 14 else 6)
     if want and rnd != want:
         continue
     c = m["confirmed_by_coordinator"]
